@@ -39,7 +39,7 @@ abbrev Bytes := List Nat
 /-- an authored decimal token -/
 abbrev Tok := List Nat
 
-def ascii (s : String) : Bytes := s.toUTF8.toList.map (·.toNat)
+def ascii (s : String) : Bytes := s.toList.map (·.toNat)
 
 /-! ## number formatting -/
 
@@ -426,7 +426,7 @@ def dictGet (k : Bytes) : List (Bytes × Obj) → Option Obj
   | [] => none
   | (k', v) :: r => if k == k' then some v else dictGet k r
 
-def Obj.get? (o : Obj) (k : String) : Option Obj :=
+def dget (o : Obj) (k : String) : Option Obj :=
   match o with
   | .dict kvs => dictGet (key k) kvs
   | _ => none
@@ -454,13 +454,13 @@ def elemsOf : List Obj → List C18.Elem
   | _ :: r => .junk :: elemsOf r
 
 def c18Ty (d : Obj) : C18.Ty :=
-  match d.get? "Type" with
+  match dget d "Type" with
   | none => .absent
   | some (.name n) => if n == ascii "Page" then .page else if n == ascii "Pages" then .pages else .other
   | some _ => .nonName
 
 def c18Kids (d : Obj) : C18.Kids :=
-  match d.get? "Kids" with
+  match dget d "Kids" with
   | none => .absent
   | some (.arr xs) => .direct (elemsOf xs)
   | some (.ref n _) => .ref n
@@ -468,8 +468,8 @@ def c18Kids (d : Obj) : C18.Kids :=
 
 def c18Dict (d : Obj) : C18.Dict :=
   { ty := c18Ty d, kids := c18Kids d,
-    mb := (d.get? "MediaBox").map (fun _ => C18.Raw.junk),
-    contents := (d.get? "Contents").isSome }
+    mb := (dget d "MediaBox").map (fun _ => C18.Raw.junk),
+    contents := (dget d "Contents").isSome }
 
 def c18Obj : RObj → C18.Obj
   | .plain (.dict kvs) => .dict (c18Dict (.dict kvs))
@@ -528,7 +528,7 @@ def readContents (g : Graph) (pd : Obj) : Option (List Model.CT.Parsed) :=
     match resolve g o with
     | some (.stream _ data) => Model.CT.parseContent data
     | _ => some []          -- non-stream array items are skipped
-  match pd.get? "Contents" with
+  match dget pd "Contents" with
   | none => some []
   | some c =>
     match resolve g c with
@@ -541,8 +541,8 @@ def readContents (g : Graph) (pd : Obj) : Option (List Model.CT.Parsed) :=
 def readImage (g : Graph) (name : Bytes) (o : Obj) : Option ImgR :=
   match resolve g o with
   | some (.stream d data) =>
-    some { name := name, w := intOf (d.get? "Width"), h := intOf (d.get? "Height"),
-           cs := nameOf (d.get? "ColorSpace"), bpc := intOf (d.get? "BitsPerComponent"), data := data }
+    some { name := name, w := intOf (dget d "Width"), h := intOf (dget d "Height"),
+           cs := nameOf (dget d "ColorSpace"), bpc := intOf (dget d "BitsPerComponent"), data := data }
   | _ => none
 
 def readImages (g : Graph) : List (Bytes × Obj) → Option (List ImgR)
@@ -559,13 +559,13 @@ def sortImgs (l : List ImgR) : List ImgR := l.foldr insertImgR []
 
 /-- images named by the page's own `/Resources /XObject` -/
 def readPageImages (g : Graph) (pd : Obj) : Option (List ImgR) :=
-  match pd.get? "Resources" with
+  match dget pd "Resources" with
   | none => some []
   | some r =>
     match resolveDict g r with
     | none => some []
     | some rd =>
-      match rd.get? "XObject" with
+      match dget rd "XObject" with
       | none => some []
       | some x =>
         match resolveDict g x with
@@ -580,10 +580,10 @@ def readPage (g : Graph) (i id : Nat) : Except RErr PageR :=
   match (g.get id).bind RObj.dict? with
   | none => .error (.page i)
   | some pd =>
-    let mb := match pd.get? "MediaBox" with
+    let mb := match dget pd "MediaBox" with
       | some (.arr xs) => if xs.length == 4 then (numToks xs).getD defaultBox else defaultBox
       | _ => defaultBox
-    let rot := (intOf (pd.get? "Rotate")).getD 0
+    let rot := (intOf (dget pd "Rotate")).getD 0
     match readContents g pd with
     | none => .error (.content i)
     | some ops =>
@@ -610,7 +610,7 @@ def infoKeys : List String := ["Title", "Author", "Subject", "Keywords", "Creato
 def readInfo (g : Graph) (infoId : Option Nat) : List (Bytes × Bytes) :=
   match infoId.bind g.get |>.bind RObj.dict? with
   | none => []
-  | some d => infoKeys.filterMap fun k => match d.get? k with
+  | some d => infoKeys.filterMap fun k => match dget d k with
     | some (.str s) => some (key k, s)
     | _ => none
 
@@ -619,7 +619,7 @@ def readDoc (g : Graph) (root : Nat) (infoId : Option Nat) : Except RErr DocR :=
   match (g.get root).bind RObj.dict? with
   | none => .error .noRoot
   | some cat =>
-    match (cat.get? "Pages").bind (resolveDict g) with
+    match (dget cat "Pages").bind (resolveDict g) with
     | none => .error .noPages
     | some pagesD =>
       match C18.flatten (c18Graph g) (c18Dict pagesD) with
@@ -654,5 +654,62 @@ def graphOf (parse : Obj → Option Obj) (unz : Bytes → Option Bytes) : List W
         | some d', some data => some ((o.id, RObj.stream d' data) :: g)
         | _, _ => none
       | .xmp => some ((o.id, RObj.stream (.dict []) []) :: g)
+
+/-! ## the authored content (spec side of the property) -/
+
+/-- what the property says a reader must find for one page: the boxes, the rotation, the
+    operators IN CALL ORDER with the authored operands, the images -/
+structure ExpPage where
+  mediaBox : List Tok
+  rot : Int
+  ops : List XOp
+  imgs : List (Bytes × Image)
+  deriving Repr, DecidableEq, Inhabited
+
+def observePage (p : PageD) : ExpPage :=
+  { mediaBox := [zeroTok, zeroTok, p.w, p.h], rot := pageRot 0 p.ops, ops := specOps p, imgs := imagesOf p.ops }
+
+def observe (d : Doc) : List ExpPage := d.pages.map observePage
+
+/-- the same with the operators in the order the library EMITS them (differs from `observePage`
+    exactly when an image is drawn while text is pending, see `Props/C02`) -/
+def observePageEmit (p : PageD) : ExpPage := { observePage p with ops := emitOps p }
+
+/-- the parsed operator a faithful content parser returns for an emitted operator (the
+    statement of C21 for the operators the DSL produces) -/
+def expectArgNum (p : Nat) (t : Tok) : Model.CT.Arg := .num (fmtFix p t)
+
+def isIntTokC (t : Tok) : Bool := !t.contains 46
+
+/-- `{}` of an `f64`: an integer token is lexed as `Token::Integer` -/
+def expectDisplay (t : Tok) : Model.CT.Arg :=
+  if isIntTokC t then .numI (Spec.Syntax.intVal t) else .num t
+
+def expectParsed : XOp → Model.CT.Parsed
+  | .num kw p args => ⟨kw, args.map (expectArgNum p)⟩
+  | .plain kw => ⟨kw, []⟩
+  | .int kw v => ⟨kw, [.int (Int.ofNat v)]⟩
+  | .dash [] _ => ⟨[100], [.nums [], .numI 0]⟩
+  | .dash arr ph => ⟨[100], [.nums (arr.map (expectArgNum 2)), expectArgNum 2 ph]⟩
+  | .font n size => ⟨[84, 102], [.name n, expectDisplay size]⟩
+  | .showText bs => ⟨[84, 106], [.str bs]⟩
+  | .xobj n => ⟨[68, 111], [.name n]⟩
+
+/-- the value the model reader returns for a page the model writer wrote -/
+def normPage (p : PageD) : PageR :=
+  { mediaBox := [zeroTok, zeroTok, p.w, p.h].map (fun t => Model.trimReal (fmtFix 6 t)),
+    rot := pageRot 0 p.ops,
+    ops := (emitOps p).map expectParsed,
+    imgs := (imagesOf p.ops).map fun e =>
+      { name := e.1, w := some (Int.ofNat e.2.w), h := some (Int.ofNat e.2.h),
+        cs := some (ascii (if e.2.gray then "DeviceGray" else "DeviceRGB")), bpc := some 8, data := e.2.data } }
+
+def norm (d : Doc) (extra : List (Bytes × Obj)) : DocR :=
+  { pages := d.pages.map normPage,
+    info := infoKeys.filterMap fun k =>
+      match dictGet (key k) (d.info.map (fun e => (e.1, Obj.str e.2)) ++
+                             extra.filter (fun e => !(d.info.map (·.1)).contains e.1)) with
+      | some (.str s) => some (key k, s)
+      | _ => none }
 
 end OxiVerif.C02
